@@ -64,6 +64,7 @@ def secondEntry (soft : Soft W) (e : FwEntry) (s : Node W) (f : Frame) : Option 
   | .extIn => some (if inDmzNet s f then .dmzIn else .intIn)
   | .intOut => some (if inDmzNet s f then .dmzIn else .extOut)
   | .dmzOut =>
+    if f.dstMac == bcastMac then none else
     match soft.dmzOutNic s f with
     | some q => if q = extPort then some .extOut else if q = intPort then some .intIn else none
     | none => none
